@@ -6,6 +6,7 @@ import (
 	"go/token"
 	"go/types"
 	"sort"
+	"strings"
 )
 
 // outcome of executing a statement: the fall-through state plus pending break / continue states by label.
@@ -439,6 +440,7 @@ func (c *Ctx) analyseLoop(nodes ...ast.Node) *loopInfo {
 	li := &loopInfo{modVars: map[types.Object]bool{}, heapFams: map[string]bool{}, resliced: map[types.Object]bool{}, appended: map[types.Object]bool{},
 		rootVars: map[string][]types.Object{}, rootsUnk: map[string]bool{}}
 	otherAssign := map[types.Object]bool{}
+	atomicAddr := map[*ast.UnaryExpr]bool{}
 	markLHS := func(e ast.Expr, rhs ast.Expr) {
 		switch l := ast.Unparen(e).(type) {
 		case *ast.Ident:
@@ -501,10 +503,22 @@ func (c *Ctx) analyseLoop(nodes ...ast.Node) *loopInfo {
 				}
 			case *ast.CallExpr:
 				c.noteCallWrites(li, s)
+				// &x passed straight to a sync/atomic function is handled there
+				if se, ok := s.Fun.(*ast.SelectorExpr); ok && len(s.Args) > 0 {
+					if id, ok := se.X.(*ast.Ident); ok {
+						if pn, ok := c.pkg.info.ObjectOf(id).(*types.PkgName); ok && pn.Imported().Path() == "sync/atomic" {
+							if u, ok := ast.Unparen(s.Args[0]).(*ast.UnaryExpr); ok {
+								atomicAddr[u] = true
+							}
+						}
+					}
+				}
 			case *ast.UnaryExpr:
-				if s.Op == token.AND {
-					// address taken inside loop: be conservative
-					li.heapFams["*"] = true
+				if s.Op == token.AND && !atomicAddr[s] {
+					if _, isLit := ast.Unparen(s.X).(*ast.CompositeLit); !isLit {
+						// address taken inside loop: be conservative
+						li.heapFams["*"] = true
+					}
 				}
 			}
 			return true
@@ -670,6 +684,42 @@ func (c *Ctx) noteCallWrites(li *loopInfo, call *ast.CallExpr) {
 		if w != "" {
 			li.heapFams[w] = true
 		}
+		return
+	}
+	switch {
+	case name == "slices.SortFunc" || name == "sort.Strings" || name == "sort.Slice":
+		// sorts the slice argument in place
+		if len(call.Args) > 0 {
+			if tv, ok := c.pkg.info.Types[call.Args[0]]; ok && validType(tv.Type) {
+				if sl, ok := tv.Type.Underlying().(*types.Slice); ok {
+					var fams [][2]string
+					c.leafFamilies(c.elemPrefix(sl.Elem()), sl.Elem(), &fams)
+					for _, f := range fams {
+						li.heapFams[f[0]] = true
+						li.rootsUnk[f[0]] = true
+					}
+					return
+				}
+			}
+		}
+		li.heapFams["*"] = true
+		return
+	case name == "sort.StringSlice.Sort":
+		li.heapFams["string"] = true
+		li.rootsUnk["string"] = true
+		return
+	case strings.HasPrefix(name, "sync/atomic.") && fn.Type().(*types.Signature).Recv() == nil:
+		// atomic.StoreInt32(&x.f, ...) and friends write the addressed place
+		if len(call.Args) > 0 {
+			if u, ok := ast.Unparen(call.Args[0]).(*ast.UnaryExpr); ok && u.Op == token.AND {
+				c.noteHeapWrite(li, u.X)
+				return
+			}
+		}
+		li.heapFams["*"] = true
+		return
+	case strings.HasPrefix(name, "sync/atomic.") || strings.HasPrefix(name, "sync.") || strings.HasPrefix(name, "context.") ||
+		strings.HasPrefix(name, "time.") || c.isLoggingCallee(fn):
 		return
 	}
 	if _, ok := prelude[name]; ok {
@@ -985,6 +1035,7 @@ func (c *Ctx) invariantTerms(st *State, ls *LoopSpec, pos token.Pos, auto []Term
 func (c *Ctx) bindGhostEnv(env *SpecEnv) {}
 
 type loopParts struct {
+	node     ast.Node
 	pos      token.Pos
 	bodyPos  token.Pos
 	cond     func(st *State) Term                 // loop guard evaluated in st (may add obligations)
@@ -998,8 +1049,12 @@ type loopParts struct {
 }
 
 func (c *Ctx) execLoop(st *State, lp loopParts) outcome {
-	ord := c.fr.loopOrd
-	c.fr.loopOrd++
+	// loop ordinals are static: the position of the loop statement in the function's source order
+	ord, okOrd := c.fr.loopIdx[lp.node]
+	if !okOrd {
+		ord = c.fr.loopOrd + 1000
+		c.fr.loopOrd++
+	}
 	ls := c.loopSpec(ord)
 	if ls != nil && ls.Unroll > 0 {
 		return c.unrollLoop(st, lp, ls, ord)
@@ -1015,7 +1070,9 @@ func (c *Ctx) execLoop(st *State, lp loopParts) outcome {
 	if lp.auto != nil {
 		auto = lp.auto(st)
 	}
+	c.goalMode++
 	invs, cls, facts := c.invariantTerms(st, ls, lp.bodyPos, auto)
+	c.goalMode--
 	for i, t := range invs {
 		c.oblige(st, "inv-entry", fmt.Sprintf("loop%d:%s", ord, clauseLabel(cls[i], i)), lp.pos, Implies(And(facts...), t), cls[i].Text)
 	}
@@ -1025,7 +1082,10 @@ func (c *Ctx) execLoop(st *State, lp loopParts) outcome {
 		auto = lp.auto(head)
 	}
 	hinvs, _, hfacts := c.invariantTerms(head, ls, lp.bodyPos, auto)
-	head.assume(c, And(append(hfacts, hinvs...)...))
+	head.assume(c, And(hfacts...))
+	for _, hi := range hinvs {
+		head.assumeSoft(c, hi)
+	}
 	var decr0 Term
 	var decrTy types.Type = tInt
 	haveDecr := ls != nil && ls.Decreases != nil
@@ -1078,7 +1138,9 @@ func (c *Ctx) execLoop(st *State, lp loopParts) outcome {
 		if lp.auto != nil {
 			auto = lp.auto(cont)
 		}
+		c.goalMode++
 		pinvs, pcls, pfacts := c.invariantTerms(cont, ls, lp.bodyPos, auto)
+		c.goalMode--
 		for i, t := range pinvs {
 			c.oblige(cont, "inv-preserved", fmt.Sprintf("loop%d:%s", ord, clauseLabel(pcls[i], i)), lp.pos, Implies(And(pfacts...), t), pcls[i].Text)
 		}
@@ -1202,7 +1264,7 @@ func (c *Ctx) execFor(st *State, x *ast.ForStmt, label string) outcome {
 			return outcome{}
 		}
 	}
-	lp := loopParts{pos: x.Pos(), bodyPos: x.Body.Lbrace + 1, body: x.Body.List, label: label, analysed: []ast.Node{x.Body, x.Post}}
+	lp := loopParts{node: x, pos: x.Pos(), bodyPos: x.Body.Lbrace + 1, body: x.Body.List, label: label, analysed: []ast.Node{x.Body, x.Post}}
 	if x.Cond != nil {
 		lp.cond = func(s *State) Term { return c.asScalar(c.eval(s, x.Cond), tBool).T }
 	}
@@ -1277,7 +1339,7 @@ func (c *Ctx) execRange(st *State, x *ast.RangeStmt, label string) outcome {
 		}
 	}
 	hidT := func(s *State) Term { return s.vars[hid].(Scalar).T }
-	lp := loopParts{pos: x.Pos(), bodyPos: x.Body.Lbrace + 1, body: x.Body.List, label: label, analysed: []ast.Node{x.Body},
+	lp := loopParts{node: x, pos: x.Pos(), bodyPos: x.Body.Lbrace + 1, body: x.Body.List, label: label, analysed: []ast.Node{x.Body},
 		extraMod: []types.Object{hid}}
 	if keyObj != nil {
 		lp.extraMod = append(lp.extraMod, keyObj)
@@ -1310,4 +1372,23 @@ func (c *Ctx) convertIdxTo(i Term, t types.Type) Term {
 		return c.convertInt(i, tInt, t)
 	}
 	return i
+}
+
+
+// numberLoops assigns every for / range statement of a function body its ordinal in source order.
+func numberLoops(body ast.Node) map[ast.Node]int {
+	m := map[ast.Node]int{}
+	if body == nil {
+		return m
+	}
+	n := 0
+	ast.Inspect(body, func(nd ast.Node) bool {
+		switch nd.(type) {
+		case *ast.ForStmt, *ast.RangeStmt:
+			m[nd] = n
+			n++
+		}
+		return true
+	})
+	return m
 }
